@@ -266,8 +266,52 @@ def broadcast_rules(repo):
     return rules
 
 
+ALIGN_FORMS = {
+    "_align": ["shape = operands[0].shape if isinstance(operands[0], FeArray) else None",
+               "operands = tuple((_Evaluate(op) for op in operands))",
+               "ranks = [op.ndim - 2 if isinstance(op, FeArray) else np.ndim(op) for op in operands]",
+               "nt = max(ranks)",
+               "return tuple((op[(slice(None), slice(None)) + (None,) * (nt - rank)] if isinstance(op, FeArray) and rank < nt else op for op, rank in zip(operands, ranks)))",
+               "return operands"],
+    "__wrap": ["return res", "return res.view(FeArray)", "return np.asarray(res)"],
+}
+WRAP_TESTS = ["not isinstance(res, np.ndarray)", "res.ndim >= 2 and res.shape[:2] == feShape"]
+
+
+def align_forms(repo):
+    """statement-level tie for `FeArray._align` (padding of the tensor rank) and `FeArray.__wrap` (typing of a result):
+    every statement the model Props/C12Align.lean / C12Typing.lean was written from must be there, and nothing else."""
+    tree = ast.parse(open(os.path.join(repo, "EasyFEA", "FEM", "_linalg.py"), encoding="utf-8").read())
+    cls = next((n for n in tree.body if isinstance(n, ast.ClassDef) and n.name == "FeArray"), None)
+    out = {}
+    for name, lines in ALIGN_FORMS.items():
+        fn = next((f for f in (cls.body if cls else []) if isinstance(f, ast.FunctionDef) and f.name == name), None)
+        if fn is None:
+            raise Refuse(f"FeArray.{name} not found")
+        src = [ast.unparse(st) for st in ast.walk(fn) if isinstance(st, ast.stmt) and not isinstance(st, (ast.If, ast.For, ast.FunctionDef))
+               and not (isinstance(st, ast.Expr) and isinstance(st.value, ast.Constant) and isinstance(st.value.value, str))]
+        src = [u for u in src if u != "break"]
+        if sorted(src) != sorted(lines):
+            raise Refuse(f"FeArray.{name}: statements changed: {sorted(set(src) ^ set(lines))}")
+        out[name] = lines
+        if name == "__wrap":
+            tests = [ast.unparse(st.test) for st in ast.walk(fn) if isinstance(st, ast.If)]
+            if tests != WRAP_TESTS:
+                raise Refuse(f"FeArray.__wrap: tests changed: {tests}")
+            out["__wrap tests"] = tests
+    return out
+
+
 def write(repo: str, outdir: str) -> dict:
     ex = extract(repo)
+    af = align_forms(repo)
+    q = lambda x: '"' + x.replace('"', "'") + '"'  # noqa: E731
+    atxt = ("-- GENERATED by tools/py2lean/gen_c12.py from FeArray._align / FeArray.__wrap in /repo/EasyFEA/FEM/_linalg.py — do not edit\n"
+            "namespace EasyFEAVerif.Gen.C12\n\n/-- the statements of `_align` and `__wrap`, matched against the source -/\n"
+            "def alignForms : List (String × List String) := [\n  "
+            + ",\n  ".join("(" + q(k) + ", [" + ", ".join(q(x) for x in v) + "])" for k, v in af.items()) + "]\n\nend EasyFEAVerif.Gen.C12\n")
+    os.makedirs(outdir, exist_ok=True)
+    _write_if_changed(os.path.join(outdir, "Align.lean"), atxt)
     os.makedirs(outdir, exist_ok=True)
     rules = broadcast_rules(repo)
     btxt = ("-- GENERATED by tools/py2lean/gen_c12.py from FeArray.broadcast in /repo/EasyFEA/FEM/_linalg.py — do not edit\n"
